@@ -281,7 +281,7 @@ def worker(acc, shard, nshards, tier, seed):
         D, nt = check_search(acc, E, query, cands, opts, nd)
         acc.case(sub, nontrivial=nt)
         acc.outcome(tuple(round(d, 9) for d in sorted(D)[:3]))
-        if acc.states % 499 == 1:
+        if not acc.samples or acc.states % 499 == 1:
             acc.sample({'query': query, 'candidates': cands, 'options': opts})
     depth = 4 if tier == 'thorough' else 3
     for query, cands, opts, md, use_lb, use_c in hist_universe(tier, seed, shard, nshards):
